@@ -53,6 +53,12 @@ vnacal_new_t *vnacal_new_alloc(vnacal_t *vcp, vnacal_type_t type,
 		"vnacal_new_alloc: calibration matrix must be at least 1x1");
 	return NULL;
     }
+    if (m_rows > 10000 || m_columns > 10000) {	/* term counts fit an int */
+	_vnacal_error(vcp, VNAERR_USAGE,
+		"vnacal_new_alloc: calibration matrix cannot be larger than "
+		"10000x10000");
+	return NULL;
+    }
     if (frequencies < 0) {
 	_vnacal_error(vcp, VNAERR_USAGE,
 		"vnacal_new_alloc: frequencies cannot be negative");
